@@ -116,8 +116,8 @@ fn mn_configs(thorough: bool) -> Vec<MnConfig> {
                 for wr in wrs {
                     for fill_policy in [FillPolicy::Random, FillPolicy::Uniform] {
                         let mut girths: Vec<(Option<usize>, usize)> = vec![(None, 0)];
-                        for g in [4usize, 6, 8] {
-                            for t in [0usize, 5, 50] {
+                        for g in [3usize, 4, 5, 6, 7, 8] {
+                            for t in if g % 2 == 0 { vec![0usize, 5, 50] } else { vec![5usize] } {
                                 girths.push((Some(g), t));
                             }
                         }
@@ -378,7 +378,7 @@ pub fn run(run: &Run) -> i32 {
         run,
         acc,
         Coverage {
-            rule: "MacKay-Neal: rows 2..6(8) x cols 2..10(14) x wc 1..3 x wr in {ceil(cols*wc/rows), +1, cols} x {Random, Uniform} x min girth {None, 4/6/8 with 0/5/50 trials} x backtracking {(0,0),(1,3),(2,10)}, each with a window of 32 (128) consecutive seeds starting at VERIF_SEED*64, every run executed twice (determinism); PEG: rows 1..6(8) x cols 1..10(14) x wc 1..4 (including wc > rows) x the same seeds with the edge rule replayed edge by edge against the harness's own BFS on the partial graph; seed search: on every 13th (5th) configuration the per-seed outcome set of a 24-seed window is computed exhaustively, then search() is run under rayon pools of 1, 2, 4 and 16 threads (3 repetitions) on the whole window and on windows ending just before / just at the first successful seed. Non-trivial = successful construction (all invariants checked) / search with more than one admissible answer.".into(),
+            rule: "MacKay-Neal: rows 2..6(8) x cols 2..10(14) x wc 1..3 x wr in {ceil(cols*wc/rows), +1, cols} x {Random, Uniform} x min girth {None, 4/6/8 with 0/5/50 trials, 3/5/7 with 5 trials} x backtracking {(0,0),(1,3),(2,10)}, each with a window of 32 (128) consecutive seeds starting at VERIF_SEED*64, every run executed twice (determinism); PEG: rows 1..6(8) x cols 1..10(14) x wc 1..4 (including wc > rows) x the same seeds with the edge rule replayed edge by edge against the harness's own BFS on the partial graph; seed search: on every 13th (5th) configuration the per-seed outcome set of a 24-seed window is computed exhaustively, then search() is run under rayon pools of 1, 2, 4 and 16 threads (3 repetitions) on the whole window and on windows ending just before / just at the first successful seed. Non-trivial = successful construction (all invariants checked) / search with more than one admissible answer.".into(),
             exhaustive: true,
             extra,
             graph: None,
